@@ -10,6 +10,7 @@ import (
 
 	"verif/lib/concfs"
 	"verif/lib/fsx"
+	"verif/lib/kf"
 )
 
 func lockOrderPrograms(fs string) []concfs.Prog {
@@ -53,5 +54,30 @@ func buildPlan(tier string) concfs.Plan {
 
 func main() {
 	maybeSeqOnly()
-	concfs.Main("C07", "model_checking", buildPlan, runSeq)
+	concfs.Main("C07", "model_checking", buildPlan, func(tier string, rep *kf.Reporter) (map[string]any, error) {
+		cov, err := runSeq(tier, rep)
+		if err != nil {
+			return cov, err
+		}
+
+		if cov == nil {
+			cov = map[string]any{}
+		}
+
+		idl := time.Now().Add(60 * time.Second)
+		if tier == "thorough" {
+			idl = time.Now().Add(300 * time.Second)
+		}
+
+		ic := runIdmConc(tier, rep, idl)
+		for k, v := range ic {
+			cov[k] = v
+		}
+
+		if n, _ := ic["idm_conc_programs_timed_out"].(int); n > 0 {
+			cov["seq_exhaustive"] = false
+		}
+
+		return cov, nil
+	})
 }
